@@ -584,9 +584,10 @@ def compare_model(ap, obs):
 
 # ----------------------------------------------------------------------------- sub-slot dialect (Model/SubSlot.v)
 def encode_sd(ap, obs_end):
-    """flat-integer encoding of a forward project without limits and alternatives for ocaml/scheddriver.ml
-    ('sd ...' when every effort task allocates one resource, 'sdt ...' when there are teams).  Efforts, efficiencies and gaps are arbitrary (exact rationals).
-    Raises NotCore outside that dialect."""
+    """flat-integer encoding of a forward project without alternatives for ocaml/scheddriver.ml:
+    'sd ...' (Model/SubSlot.v) when every effort task allocates one resource - limits of resources, groups, tasks
+    and containers included -, 'sdt ...' (Model/SubSlotTeam.v) when there are teams (then without limits).
+    Efforts, efficiencies and gaps are arbitrary (exact rationals).  Raises NotCore outside that dialect."""
     from fractions import Fraction
     G = ap.get("G", 3600)
     S = ap["start"]
@@ -598,26 +599,47 @@ def encode_sd(ap, obs_end):
     if upper > 4000:
         raise NotCore("horizon too long for the unary-number model run")
     ridx = res_index(ap)
-    if any(n.get("dailymax") is not None or n.get("weeklymax") is not None for n in ridx.values()):
-        raise NotCore("limits")
     rleaf = [(p, n) for p, n in ridx.items() if "kids" not in n]
     rnum = {n["id"]: i for i, (p, n) in enumerate(rleaf)}
-    out = [upper, G, len(rleaf)]
-    for p, n in rleaf:
-        work = [1 if working(ap, n, S + s * G) else 0 for s in range(upper + 1)]
-        e = Fraction(str(n.get("eff") or "1.0"))
-        out += [len(work)] + work + [e.numerator, e.denominator]
     tidx = task_index(ap)
     order = list(tidx)
     tnum = {p: i for i, p in enumerate(order)}
+    teams = any("kids" not in n and n.get("effort") is not None and len(n.get("alloc", [])) > 1 for n in tidx.values())
+    limits = []            # (value, period, only)
+
+    def add_limits(n):
+        ids = []
+        for kind, per in (("dailymax", 86400), ("weeklymax", 604800)):
+            if n.get(kind) is not None:
+                if teams:
+                    raise NotCore("limits together with teams at second granularity")
+                only = -1
+                if n.get("limit_res"):
+                    if len(n["limit_res"]) != 1:
+                        raise NotCore("multi-resource limit filter")
+                    only = rnum[n["limit_res"][0]]
+                limits.append((int((n[kind] / 60.0) / (G / 3600.0)), per, only))
+                ids.append(len(limits) - 1)
+        return ids
+    rlim = {p: add_limits(n) for p, n in ridx.items()}
+    out = [upper] + ([] if teams else [S]) + [G, len(rleaf)]
+    for p, n in rleaf:
+        work = [1 if working(ap, n, S + s * G) else 0 for s in range(upper + 1)]
+        e = Fraction(str(n.get("eff") or "1.0"))
+        ls = []
+        for k in range(len(p), 0, -1):
+            ls += rlim[p[:k]]
+        out += [len(work)] + work + [e.numerator, e.denominator] + ([] if teams else [len(ls)] + ls)
+    tlim = {p: add_limits(n) for p, n in tidx.items()}
+    if not teams:
+        out += [len(limits)]
+        for v, per, only in limits:
+            out += [v, per, only]
     edges = all_edges(ap)
     out.append(len(order))
-    rows, teams = [], False
     for p in order:
         n = tidx[p]
         leaf = "kids" not in n
-        if n.get("dailymax") is not None or n.get("weeklymax") is not None:
-            raise NotCore("limits")
         if n.get("sched") or n.get("end") is not None:
             raise NotCore("task-level mode / end")
         lvs = [tnum[x] for x in leaves_under(n, p)]
@@ -631,7 +653,6 @@ def encode_sd(ap, obs_end):
             if n.get("alt") or any(x not in rnum for x in n["alloc"]) or len(set(n["alloc"])) != len(n["alloc"]):
                 raise NotCore("alternative / group allocation")
             mile, eff_s, team = 0, n["effort"] * 60, [rnum[x] for x in n["alloc"]]
-            teams = teams or len(team) > 1
         deps = []
         for (q, gap, onstart, gaplen) in edges[p]:
             if gaplen:
@@ -650,10 +671,12 @@ def encode_sd(ap, obs_end):
             if s is not None:
                 lb = max(0, s - S)
                 break
-        rows.append(([1 if leaf else 0, len(lvs)] + lvs + [prio, mile, eff_s, 1], team, [len(deps)] + [x for d in deps for x in d] + [pin, lb]))
-    # projects with a team go through Model/SubSlotTeam.v ('sdt': the team as a list), the others through Model/SubSlot.v
-    for head, team, tail in rows:
-        out += head + (([len(team)] + team) if teams else [team[0] if team else 0]) + tail
+        tl = []
+        for k in range(len(p), 0, -1):
+            tl += tlim[p[:k]]
+        out += [1 if leaf else 0, len(lvs)] + lvs + [prio, mile, eff_s, 1]
+        out += ([len(team)] + team) if teams else [team[0] if team else 0]
+        out += [len(deps)] + [x for d in deps for x in d] + [pin, lb] + ([] if teams else [len(tl)] + tl)
     return ("sdt " if teams else "sd ") + " ".join(str(x) for x in out), order, [fid(p) for p, _ in rleaf]
 
 
